@@ -5,28 +5,9 @@
    (2) D is the minimum cost over all edit scripts (so "distance" means what Victor & Purpura define);
    (3) metric laws, bounds and the documented cost limits, for trains of every length. *)
 From Coq Require Import List ZArith Bool Arith Lia Reals Lra.
-From Inferno Require Import Base.Num Base.NumR C20.Model.
+From Inferno Require Import Base.Num Base.NumR C20.Model C20.Spec.
 Import ListNotations.
 Open Scope R_scope.
-
-(* ------------------------------------------------------------------ independent specification *)
-(* cost: Some q = finite cost per unit time, None = +inf (shifts unavailable) *)
-Definition cell3 (cost : option R) (del ins : R) (shift : R -> R) : R :=
-  match cost with
-  | Some q => Rmin (Rmin del ins) (shift q)
-  | None => Rmin del ins
-  end.
-
-Fixpoint D (cost : option R) (a : list R) : list R -> R :=
-  match a with
-  | [] => fun b => INR (length b)
-  | x :: a' =>
-      fix Dx (b : list R) : R :=
-        match b with
-        | [] => INR (length a)
-        | y :: b' => cell3 cost (D cost a' b + 1) (Dx b' + 1) (fun q => D cost a' b' + q * Rabs (x - y))
-        end
-  end.
 
 Lemma D_nil_l : forall cost b, D cost [] b = INR (length b).
 Proof. reflexivity. Qed.
@@ -36,25 +17,6 @@ Lemma D_cons : forall cost x a y b,
   D cost (x :: a) (y :: b) =
   cell3 cost (D cost a (y :: b) + 1) (D cost (x :: a) b + 1) (fun q => D cost a b + q * Rabs (x - y)).
 Proof. reflexivity. Qed.
-
-(* edit scripts turning train a into train b *)
-Inductive script : list R -> list R -> Type :=
-| s_nil : script [] []
-| s_del : forall x a b, script a b -> script (x :: a) b
-| s_ins : forall y a b, script a b -> script a (y :: b)
-| s_shift : forall x y a b, script a b -> script (x :: a) (y :: b).
-(* cost of a script; None when it uses a shift although shifting is unavailable (cost = inf) *)
-Fixpoint script_cost (cost : option R) {a b} (s : script a b) : option R :=
-  match s with
-  | s_nil => Some 0
-  | s_del _ _ _ s' => option_map (fun c => c + 1) (script_cost cost s')
-  | s_ins _ _ _ s' => option_map (fun c => c + 1) (script_cost cost s')
-  | s_shift x y _ _ s' =>
-      match cost, script_cost cost s' with
-      | Some q, Some c => Some (c + q * Rabs (x - y))
-      | _, _ => None
-      end
-  end.
 
 (* ------------------------------------------------------------------ induction principle on two lists *)
 Lemma list2_ind : forall (P : list R -> list R -> Prop),
@@ -72,8 +34,6 @@ Lemma Rmin_cases : forall u v, Rmin u v = u \/ Rmin u v = v.
 Proof. intros; unfold Rmin; destruct (Rle_dec _ _); auto. Qed.
 
 (* ------------------------------------------------------------------ basic laws of D *)
-Definition nonneg_cost (cost : option R) : Prop := forall q, cost = Some q -> 0 <= q.
-
 Lemma shift_nonneg : forall cost q x y, nonneg_cost cost -> cost = Some q -> 0 <= q * Rabs (x - y).
 Proof. intros cost q x y Hc E. apply Rmult_le_pos; [apply Hc; assumption | apply Rabs_pos]. Qed.
 
